@@ -10,6 +10,8 @@ mod dbrun;
 mod gen_types;
 mod rng;
 mod sexp;
+#[cfg(agdb_verif)]
+mod walrun;
 
 use std::collections::BTreeMap;
 use std::io::Write;
@@ -75,6 +77,21 @@ fn main() {
             write_lines(&format!("{}/impl{}.txt", out, sfx), &ctx.imp);
             write_lines(&format!("{}/oracle{}.txt", out, sfx), &ctx.oracle);
             write_stats(&format!("{}/stats{}.json", out, sfx), &ctx.stats, ctx.cases.len() as u64, ctx.nontrivial, &ctx.samples);
+        }
+        #[cfg(agdb_verif)]
+        "c01" => {
+            let mut o = walrun::Out { cases: vec![], imp: vec![], oracle: vec![], stats: BTreeMap::new(), samples: vec![], nontrivial: 0, programs: 0, snapshots: 0 };
+            let mut r = rng::Rng::new(seed);
+            let max_ops: u64 = arg(&args, "--steps", "14").parse().unwrap();
+            for i in 0..n {
+                let mut pr = r.fork();
+                walrun::run_program(&mut pr, &out, i, i % 3 == 2, max_ops, &mut o);
+            }
+            write_lines(&format!("{}/cases.txt", out), &o.cases);
+            write_lines(&format!("{}/impl.txt", out), &o.imp);
+            write_lines(&format!("{}/oracle.txt", out), &o.oracle);
+            o.stats.insert("snapshots".into(), o.snapshots);
+            write_stats(&format!("{}/stats.json", out), &o.stats, o.snapshots, o.nontrivial, &o.samples);
         }
         "db" => {
             let opts = dbrun::Opts {
